@@ -11,7 +11,7 @@ from fractions import Fraction
 from ..common import chunked, pmap, rotate
 from ..world import get_world
 
-MEASURANDS = [-7, -1, -0.25, 0, 0.5, 3, 1000]
+MEASURANDS = [-7, -1, -0.25, 0, 0.5, 3, 1000, 5e-10, -2e-10]  # tiny but non-zero: a tolerance in a zero guard must not swallow them
 SIGMAS = [0, 0.01, 0.3, 2]
 TYPES = ["float", "int", "Decimal"]
 POWERS = [-4, -3, -2, -1, 0, 1, 2, 3, 4]
